@@ -801,12 +801,44 @@ impl RuleCatalog {
         let content = serde_json::to_string_pretty(&catalog_file)
             .map_err(|e| format!("Failed to serialize catalog: {e}"))?;
 
+        // Write to a temp file, sync it, then rename it over the catalog (same discipline as
+        // `save_shard_meta`): the catalog file is always the old or the new version, never a
+        // half-written one that would make the whole data directory unopenable.
+        let tmp_path = self.catalog_path.with_extension("json.tmp");
         #[cfg(inputlayer_verif)]
-        crate::verif_hooks::fs_point("rulecat.save.write:pre");
-        fs::write(&self.catalog_path, content)
-            .map_err(|e| format!("Failed to write catalog: {e}"))?;
+        crate::verif_hooks::fs_point("rulecat.save.tmpwrite:pre");
+        fs::write(&tmp_path, content).map_err(|e| format!("Failed to write catalog: {e}"))?;
         #[cfg(inputlayer_verif)]
-        crate::verif_hooks::fs_point("rulecat.save.write:post");
+        crate::verif_hooks::fs_point("rulecat.save.tmpwrite:post");
+
+        #[cfg(inputlayer_verif)]
+        crate::verif_hooks::fs_point("rulecat.save.fsync:pre");
+        if let Err(e) = fs::File::open(&tmp_path).and_then(|f| f.sync_all()) {
+            let _ = fs::remove_file(&tmp_path);
+            return Err(format!("Failed to sync catalog: {e}"));
+        }
+        #[cfg(inputlayer_verif)]
+        crate::verif_hooks::fs_point("rulecat.save.fsync:post");
+
+        #[cfg(inputlayer_verif)]
+        crate::verif_hooks::fs_point("rulecat.save.rename:pre");
+        if let Err(e) = fs::rename(&tmp_path, &self.catalog_path) {
+            let _ = fs::remove_file(&tmp_path);
+            return Err(format!("Failed to write catalog: {e}"));
+        }
+        #[cfg(inputlayer_verif)]
+        crate::verif_hooks::fs_point("rulecat.save.rename:post");
+
+        // Sync the directory so that the rename itself is durable
+        if let Some(parent) = self.catalog_path.parent() {
+            #[cfg(inputlayer_verif)]
+            crate::verif_hooks::fs_point("rulecat.save.dirsync:pre");
+            if let Ok(dir) = fs::File::open(parent) {
+                let _ = dir.sync_all();
+            }
+            #[cfg(inputlayer_verif)]
+            crate::verif_hooks::fs_point("rulecat.save.dirsync:post");
+        }
 
         self.dirty = false;
         Ok(())
